@@ -11,13 +11,15 @@ echo "|---|---|---|---|" >> $OUT
 fail=0
 for d in seeded/C*/; do
   id=$(basename $d); prop=$(python3 -c "import json,sys; print(json.load(open(sys.argv[1]))[\"breaks_property\"])" $d/meta.json)
+  # changes judged to lie outside the property as stated are run and reported, never counted
+  status=$(python3 -c "import json,sys; print(json.load(open(sys.argv[1])).get(\"status\",\"\"))" $d/meta.json)
   git -C /repo apply "$PWD/$d/patch.diff" || { echo "$id: patch does not apply"; fail=1; continue; }
   for c in $prop "$@"; do
     out=$(timeout 1500 ./check $c quick 2>&1); rc=$?
     cls=$(echo "$out" | grep -E '^violation' | head -1 | sed 's/.*class=\([^ ]*\).*/\1/')
-    echo "| $id | $c quick | $rc | $cls |" >> $OUT
-    echo "$id $c exit=$rc $cls"
-    [ "$c" = "$prop" ] && [ $rc -ne 1 ] && fail=1
+    echo "| $id | $c quick | $rc | $cls${status:+ ($status)} |" >> $OUT
+    echo "$id $c exit=$rc $cls $status"
+    [ "$c" = "$prop" ] && [ $rc -ne 1 ] && [ -z "$status" ] && fail=1
   done
   git -C /repo checkout -q -- .
 done
